@@ -158,6 +158,43 @@ def run(tier, seed, rng):
         if o[:3] != want[:3]:
             failures.append(dict(kind='oracle', history=h, observed=o, required=want,
                                  what='Fragments history: implementation differs from the sparse-array statement'))
+    # ---- a caller that CATCHES the collision and goes on: a rejected insertion leaves the array as it was -- stored bytes, extent and
+    # cursor -- so what follows lands where it would have landed without the rejected call (implementation against the statement only)
+    chs = []
+    for _ in range(1500 if tier == 'quick' else 30000):
+        h = []
+        for k in range(rng.randint(3, 8)):
+            r = rng.random()
+            n = rng.choice([1, 1, 2, 3])
+            if r < 0.55:
+                h.append(['i', rng.randint(0, 10), chunk(k, n, rng.choice([0, 0, 1])).hex()])
+            elif r < 0.9:
+                h.append(['a', chunk(k, n, rng.choice([0, 0, 1])).hex()])
+            else:
+                h.append(['c', rng.randint(0, 10)])
+        chs.append(h)
+    couts = [o for part in run_impl_parallel(os.path.join(VERIF, 'harness', 'impl_frag.py'), [{'histories': p, 'continue': True} for p in shard(chs, 4000)]) for o in part]
+    dist['continued_after_collision'] = 0
+    for h, o in zip(chs, couts):
+        cells, ext, cur, raised = {}, 0, 0, []
+        for k, op in enumerate(h):
+            if op[0] == 'c':
+                cur = op[1]
+                continue
+            b = bytes.fromhex(op[2] if op[0] == 'i' else op[1])
+            p0 = op[1] if op[0] == 'i' else cur
+            if any((p0 + j) in cells for j in range(len(b))):
+                raised.append(k)
+                continue
+            for j, x in enumerate(b):
+                cells[p0 + j] = x
+            ext = max(ext, p0 + len(b))
+            cur = p0 + len(b)
+        want = ['ok', bytes(cells.get(q, 46) for q in range(ext)).hex(), cur, raised]
+        dist['continued_after_collision'] += bool(raised) and raised[-1] < len(h) - 1
+        if o != want:
+            failures.append(dict(kind='oracle', history=h, observed=o, required=want, sig='continued-after-collision',
+                                 what='Fragments history in which the caller catches collisions and goes on: a rejected insertion must leave stored bytes, extent and cursor as they were'))
     # ---- Tie B: the Coq model on the same histories
     files = []
     csize = 500
@@ -181,6 +218,9 @@ def run(tier, seed, rng):
 
 
 def replay(obj):
+    if obj.get('sig') == 'continued-after-collision':
+        o = run_impl(os.path.join(VERIF, 'harness', 'impl_frag.py'), {'histories': [obj['history']], 'continue': True})[0]
+        return o != obj['required'], dict(observed=o, required=obj['required'])
     o = run_impl(os.path.join(VERIF, 'harness', 'impl_frag.py'), {'histories': [obj['history']]})[0]
     want = spec_outcome(obj['history'])
     return o[:3] != want[:3], dict(observed=o, required=want)
